@@ -2,7 +2,7 @@
    Only statements, `exact`, Print Assumptions and non-vacuity examples. *)
 From Coq Require Import List Bool Arith Reals Lra Sorted.
 Import ListNotations.
-From PS Require Import Num RLemmas Valid ModelKernels ModelFuncs ModelAPI Spec SyncDefs Lem_IsiProps Lem_Transform Lem_Transform2 Lem_API Lem_WF Lem_API2 Lem_API3.
+From PS Require Import Num RLemmas Valid ModelKernels ModelFuncs ModelAPI Spec SyncDefs Lem_IsiProps Lem_Transform Lem_Transform2 Lem_API Lem_WF Lem_API2 Lem_API3 Lem_API4.
 Require Import PS.Props.PropTac.
 Local Open Scope R_scope.
 
@@ -185,6 +185,62 @@ Theorem C08_order_value_mirror_normalised : forall eps cy mt m a b ts te, cy = t
   spike_train_order_bi ROps eps cy false true mt m (mirror_tr a) (mirror_tr b) = rmap Ropp (spike_train_order_bi ROps eps cy false true mt m a b).
 Proof. exact order_value_mirror_norm. Qed.
 Print Assumptions C08_order_value_mirror_normalised.
+
+(* the multivariate scalars (Lem_API4.v): every list of trains on a common recording, both backends *)
+Theorem C08_isi_multi_shift : forall eps cy m iv c l ts te, Forall (vtrain ts te) l -> iv_ok ts te iv ->
+  isi_distance_multi ROps eps cy false m (shift_iv c iv) (map (shift_train c) l) None = isi_distance_multi ROps eps cy false m iv l None.
+Proof. exact isi_multi_shift. Qed.
+Print Assumptions C08_isi_multi_shift.
+Theorem C08_isi_multi_scale : forall eps cy m iv k l ts te, 0 < k -> Forall (vtrain ts te) l -> iv_ok ts te iv ->
+  isi_distance_multi ROps eps cy false (k * m) (scale_iv k iv) (map (scale_train k) l) None = isi_distance_multi ROps eps cy false m iv l None.
+Proof. exact isi_multi_scale. Qed.
+Print Assumptions C08_isi_multi_scale.
+Theorem C08_spike_multi_shift : forall eps cy m ri iv c l ts te, Forall (vtrain ts te) l -> iv_ok ts te iv ->
+  spike_distance_multi ROps eps cy false m ri (shift_iv c iv) (map (shift_train c) l) None = spike_distance_multi ROps eps cy false m ri iv l None.
+Proof. exact spike_multi_shift. Qed.
+Print Assumptions C08_spike_multi_shift.
+Theorem C08_spike_multi_scale : forall eps cy m ri iv k l ts te, 0 < k -> Forall (vtrain ts te) l -> iv_ok ts te iv ->
+  spike_distance_multi ROps eps cy false (k * m) ri (scale_iv k iv) (map (scale_train k) l) None = spike_distance_multi ROps eps cy false m ri iv l None.
+Proof. exact spike_multi_scale. Qed.
+Print Assumptions C08_spike_multi_scale.
+Theorem C08_sync_multi_shift : forall eps cy mt m iv c l ts te, Forall (vtrain ts te) l -> iv_ok ts te iv ->
+  spike_sync_multi ROps eps cy false mt m (shift_iv c iv) (map (shift_train c) l) None = spike_sync_multi ROps eps cy false mt m iv l None.
+Proof. exact sync_multi_shift. Qed.
+Print Assumptions C08_sync_multi_shift.
+Theorem C08_sync_multi_scale : forall eps cy mt m iv k l ts te, 0 < k -> Forall (vtrain ts te) l -> iv_ok ts te iv ->
+  spike_sync_multi ROps eps cy false (k * mt) (k * m) (scale_iv k iv) (map (scale_train k) l) None = spike_sync_multi ROps eps cy false mt m iv l None.
+Proof. exact sync_multi_scale. Qed.
+Print Assumptions C08_sync_multi_scale.
+Theorem C08_order_multi_shift : forall eps cy nrm mt m c l ts te, Forall (vtrain ts te) l ->
+  spike_train_order_multi ROps eps cy false nrm mt m (map (shift_train c) l) None = spike_train_order_multi ROps eps cy false nrm mt m l None.
+Proof. exact order_multi_shift. Qed.
+Print Assumptions C08_order_multi_shift.
+Theorem C08_order_multi_scale : forall eps cy nrm mt m k l ts te, 0 < k -> cy = true \/ 0 <= eps -> Forall (vtrain ts te) l ->
+  spike_train_order_multi ROps eps cy false nrm (k * mt) (k * m) (map (scale_train k) l) None = spike_train_order_multi ROps eps cy false nrm mt m l None.
+Proof. exact order_multi_scale. Qed.
+Print Assumptions C08_order_multi_scale.
+Theorem C08_isi_multi_mirror : forall eps cy m l ts te, Forall (vtrain ts te) l ->
+  isi_distance_multi ROps eps cy false m None (map mirror_tr l) None = isi_distance_multi ROps eps cy false m None l None.
+Proof. exact isi_multi_mirror. Qed.
+Print Assumptions C08_isi_multi_mirror.
+Theorem C08_spike_multi_mirror : forall eps cy m ri l ts te, Forall (vtrain ts te) l ->
+  spike_distance_multi ROps eps cy false m ri None (map mirror_tr l) None = spike_distance_multi ROps eps cy false m ri None l None.
+Proof. exact spike_multi_mirror. Qed.
+Print Assumptions C08_spike_multi_mirror.
+Theorem C08_sync_multi_mirror : forall eps cy mt m l ts te, Forall (vtrain ts te) l ->
+  spike_sync_multi ROps eps cy false mt m None (map mirror_tr l) None = spike_sync_multi ROps eps cy false mt m None l None.
+Proof. exact sync_multi_mirror. Qed.
+Print Assumptions C08_sync_multi_mirror.
+Theorem C08_order_multi_mirror : forall eps cy mt m l ts te, Forall (vtrain ts te) l ->
+  spike_train_order_multi ROps eps cy false false mt m (map mirror_tr l) None = rmap Ropp (spike_train_order_multi ROps eps cy false false mt m l None).
+Proof. exact order_multi_mirror. Qed.
+Print Assumptions C08_order_multi_mirror.
+(* normalised synfire indicator: sign change for every list of >= 2 trains with at least one spike *)
+Theorem C08_order_multi_mirror_normalised : forall eps cy mt m l ts te, cy = true \/ 0 < eps ->
+  Forall (vtrain ts te) l -> (2 <= length l)%nat -> (exists t, In t l /\ tr_spikes t <> []) ->
+  spike_train_order_multi ROps eps cy false true mt m (map mirror_tr l) None = rmap Ropp (spike_train_order_multi ROps eps cy false true mt m l None).
+Proof. exact order_multi_mirror_norm. Qed.
+Print Assumptions C08_order_multi_mirror_normalised.
 
 From PS Require Lem_Findings.
 (* KNOWN FINDING F13 as a theorem: the normalised spike-train order of two trains without spikes is
